@@ -1839,8 +1839,14 @@ func (ctx *RenderContext) ToString(val interface{}) string {
 	}
 
 	// A nil pointer has no value to print (and calling a value-receiver String() on it would panic)
-	if rv := reflect.ValueOf(val); rv.Kind() == reflect.Ptr && rv.IsNil() {
-		return ""
+	if rv := reflect.ValueOf(val); rv.Kind() == reflect.Ptr {
+		if rv.IsNil() {
+			return ""
+		}
+		// A pointer to anything but a struct prints as the value it points to, never as an address
+		if _, isStringer := val.(fmt.Stringer); !isStringer && rv.Elem().Kind() != reflect.Struct && rv.Elem().CanInterface() {
+			return ctx.ToString(rv.Elem().Interface())
+		}
 	}
 
 	switch v := val.(type) {
